@@ -9,6 +9,7 @@
     the corresponding free string function (Model/Search.v, Model/Trim.v, Model/ParseInt.v)
     applied to the remainder, inside the frame. *)
 From KV Require Import Base.Prelude Model.Search Model.Trim Model.Split.
+From KV Require Model.ParseInt.
 
 Inductive pdir : Type := FromStart | FromEnd | FromBoth.
 
@@ -92,7 +93,9 @@ Inductive pop : Type :=
 | OFindSkip (pat : list Z) | ORFindSkip (pat : list Z)
 | OSplit (d : list Z) | ORSplit (d : list Z)
 | OSplitTerminator (d : list Z) | ORSplitTerminator (d : list Z)
-| OSplitKeep (d : list Z).
+| OSplitKeep (d : list Z)
+| OParseInt (w : Z) (sg : bool)        (* parse_u8 .. parse_isize: width and signedness *)
+| OParseBool.
 
 (** smallest char boundary >= n (n <= len): the [while !is_char_boundary] loop of [skip] *)
 Definition boundary_up (s : list Z) (n : nat) : nat := n + count_cont (skipn n s).
@@ -192,6 +195,18 @@ Definition step (p : parser) (o : pop) : pres :=
              | Some pos => inr (VPiece (firstn (Z.to_nat pos) (p_str q)), skipn (Z.to_nat pos) (p_str q), p_yls q)
              | None => inr (VPiece (p_str q), [], true)
              end)
+  | OParseInt w sg =>
+      frame FromStart p (fun q =>
+        match ParseInt.parse_int_m w sg (p_str q) with
+        | ParseInt.POk (v, rest) => inr (VInt v, rest, p_yls q)
+        | ParseInt.PErr _ => inl EParseInteger
+        end)
+  | OParseBool =>
+      frame FromStart p (fun q =>
+        match ParseInt.parse_bool_m (p_str q) with
+        | ParseInt.POk (b, rest) => inr (VBool b, rest, p_yls q)
+        | ParseInt.PErr _ => inl EParseBool
+        end)
   end.
 
 (** run a sequence of operations, recording every result; stops at the first error
